@@ -7,9 +7,10 @@ ENGINE = "tb"
 LEAN_TARGETS = ["H5V.Props.C06"]
 AUDIT_IMPORTS = ["H5V.Props.C06"]
 THEOREMS = ["H5V.Props.C06." + t for t in [
-    "C06_split_run_nonempty", "C06_split_run_concat", "C06_empty_chars_dropped", "C06_chars_token_nonempty",
-    "C06_no_adjacent_text_run_partial", "C06_text_ops_never_detach", "C06_skeleton_iff",
-    "C06_eof_closure_initial_partial", "C06_frameset_skeleton_example"]]
+    "C06_skeleton_iff", "C06_split_run_nonempty", "C06_split_run_concat", "C06_chars_token_nonempty",
+    "C06_empty_chars_dropped", "C06_text_ops_never_detach", "C06_no_adjacent_text_run_partial",
+    "C06_eof_closure_initial_partial", "C06_eof_closure_modes_example", "C06_frameset_skeleton_example",
+    "C06_witness_frameset_reconstruct"]]
 TRUSTED = [
     "Lean 4 kernel; axioms ⊆ {propext, Classical.choice, Quot.sound} (audited per run)",
     "hand-written model lean/H5V/Model/HtmlTB/*.lean of html5ever/src/tree_builder/{mod,rules,data,tag_sets,types}.rs "
@@ -127,7 +128,25 @@ compare = tb.compare
 
 # ----------------------------------------------------------------------------- cases
 
-SKELETON_TEXTS = [
+FORMATTING = {"a", "b", "big", "code", "em", "font", "i", "nobr", "s", "small", "strike", "strong", "tt", "u"}
+# the gap proved by C06_witness_frameset_reconstruct (first entry = the minimal witness)
+GAP_TEXTS = ["<b><frameset></frameset></html> ", "<a><frameset></frameset></html>\n<noframes></noframes>",
+             "<p><i></p><frameset></frameset></html>\n"]
+
+
+def _is_frameset_reconstruct(f):
+    """html's element children = head, frameset, then only reconstructed formatting elements / noframes"""
+    m = re.search(r"element children of html are \[(.*?)\]", f.detail or "")
+    if not m:
+        return False
+    names = [x.strip().strip("'") for x in m.group(1).split(",")]
+    return (len(names) >= 3 and names[:2] == ["head", "frameset"] and all(n in FORMATTING or n == "noframes" for n in names[2:])
+            and any(n in FORMATTING for n in names[2:]) and "; " not in (f.detail or ""))
+
+
+KNOWN_MATCHERS = {"C06-frameset-reconstruct": _is_frameset_reconstruct}
+
+SKELETON_TEXTS = GAP_TEXTS + [
     "", " ", "x", "<!--c-->", "<!DOCTYPE html>", "<!DOCTYPE html><!--c-->", "<!--a--><!DOCTYPE html><!--b--><html><!--c-->",
     "<html>", "<html lang=en> <head> </head> <body> </body> </html> ", "<head>", "</head>", "</body>", "</html>", "</br>", "</p>",
     "<head></head>", "<head></head> x", "<head></head><!--c--> <body>", "<head><title>t</title></head>", "<title>t", "<title>",
